@@ -139,12 +139,16 @@ def recolour(rng, nested):
     return d
 
 
-def check_enum(ctx, nested):
+def check_enum(ctx, nested, before=()):
+    """``before``: Newick texts of the trees refined earlier in the same sequence (history workloads); recorded in
+    the case so that a replay re-creates the history."""
     from ete3 import Tree
     from superrec2.utils.trees import binarize
 
     M = T(nested)
     case = {"kind": "enum", "tree": M.newick()}
+    if before:
+        case["before"] = list(before)
     tree = Tree(M.newick(), format=1)
     before = (tree.write(format=8, format_root_node=True, features=["color"]), ete_info(tree))
     try:
@@ -356,10 +360,11 @@ def run(ctx, spec):
                     check_enum(ctx, nv)
                     if mode in ("named", "both") and n >= 3:
                         # history: same names and topology, other colours, then the first one again
-                        check_enum(ctx, recolour(rng, nv))
+                        nv2 = recolour(rng, nv)
+                        check_enum(ctx, nv2, before=[T(nv).newick()])
                         ctx.count("mon.enum_recoloured")
                         if idx % 2:
-                            check_enum(ctx, nv)
+                            check_enum(ctx, nv, before=[T(nv).newick(), T(nv2).newick()])
                     if ctx.too_many():
                         return
         # ReconciliationInput.binarize on random multifurcating inputs
@@ -374,7 +379,7 @@ def run(ctx, spec):
             check_e2e(ctx, case)
             if k % 2 == 0:
                 # history: the same input with other colour annotations, in the same process
-                check_e2e(ctx, dict(case, G=recolour(rng, case["G"]), S=recolour(rng, case["S"])))
+                check_e2e(ctx, dict(case, G=recolour(rng, case["G"]), S=recolour(rng, case["S"]), before=[{k2: v for k2, v in case.items() if k2 != "before"}]))
                 ctx.count("mon.e2e_recoloured")
             if k % 3 == 0:
                 check_input_binarize(ctx, case)
@@ -462,9 +467,20 @@ def known(ctx, finding):
 
 def replay(ctx, case):
     if case["kind"] == "enum":
+        from ete3 import Tree
+        from superrec2.utils.trees import binarize
         from rv.refmodel import newick
 
-        check_enum(ctx, newick.parse(case["tree"]))
+        for text in case.get("before", []):
+            # re-create the history: the trees refined earlier in the same process
+            list(binarize(Tree(text, format=1)))
+        check_enum(ctx, newick.parse(case["tree"]), before=case.get("before", ()))
     else:
+        for prev in case.get("before", []):
+            B0 = bridge.Built(prev, named=prev.get("named", True))
+            try:
+                SC.call(prev["algo"], B0.inp, ALL)
+            except BaseException:  # noqa: B902 - only the side effects of the earlier run matter here
+                pass
         check_e2e(ctx, case)
         check_input_binarize(ctx, case)
